@@ -339,12 +339,37 @@ func ruleC16c(c *Ctx) []*report.Result {
 			continue
 		}
 		pos := c.P.Pos(fn.Pos())
-		calls, straight := callsInOrder(fn)
-		if !straight || len(calls) != 2 {
-			r.Fail(construct+" / shape", pos, fmt.Sprintf("want straight-line SetMode + %s, found %d calls", target, len(calls)), nil, "")
+		var calls []ssa.CallInstruction
+		for _, b := range linearOrder(fn) {
+			for _, ins := range b.Instrs {
+				if ci, ok := ins.(ssa.CallInstruction); ok {
+					calls = append(calls, ci)
+				}
+			}
+		}
+		var sm, fp ssa.CallInstruction
+		extraWrites := 0
+		for _, ci := range calls {
+			n := calleeName(ci)
+			switch {
+			case strings.HasSuffix(n, ".SetMode") && sm == nil && fp == nil:
+				sm = ci
+			case n == "internal/rfmt."+target && fp == nil:
+				fp = ci
+			default:
+				if f := ci.Common().StaticCallee(); f != nil && c.P.InModule(f) && c.reachesWriter(f) {
+					extraWrites++
+				}
+			}
+		}
+		if sm == nil || fp == nil || extraWrites > 0 {
+			r.Fail(construct+" / shape", pos, fmt.Sprintf("want SetMode(PreRedactable) followed by one call of rfmt.%s and no other route into the buffer (found SetMode=%v, %s=%v, %d other writing calls): text written by another route does not go through the printer's classification and escaping", target, sm != nil, target, fp != nil, extraWrites), nil, "")
 			continue
 		}
-		sm, fp := calls[0], calls[1]
+		if !instrBefore(sm, fp) {
+			r.Fail(construct+" / raw mode first", pos, "SetMode(PreRedactable) must precede (dominate) the call of rfmt."+target, nil, "")
+			continue
+		}
 		okMode := false
 		if strings.HasSuffix(calleeName(sm), ".SetMode") {
 			if cst, ok := sm.Common().Args[1].(*ssa.Const); ok && cst.Int64() == 2 {
